@@ -178,8 +178,8 @@ def Db.removeValue (db : Db) (k : Bytes) : Option (Db × List Push) :=
     some (db', db'.notifyRemoved k)
 
 def Db.watch (db : Db) (k : Bytes) (s : Sid) : Db :=
-  let cur := (AL.get? db.watchers k).getD []
-  { db with watchers := AL.put db.watchers k (cur ++ [s]) }
+  if s ∈ (AL.get? db.watchers k).getD [] then db   -- already registered: the same vector is stored back
+  else { db with watchers := AL.put db.watchers k ((AL.get? db.watchers k).getD [] ++ [s]) }
 
 def Db.unwatch (db : Db) (k : Bytes) (s : Sid) : Db :=
   let cur := (AL.get? db.watchers k).getD []
